@@ -833,12 +833,24 @@ class TaskEventsManager():
             ):
                 self.spawn_children(itask, TASK_OUTPUT_FAILED, forced)
 
-        elif message == self.EVENT_SUBMIT_FAILED:
+        elif message == self.EVENT_SUBMIT_FAILED or (
+            # "cylc set --out=submit-failed" sends the output, not the event
+            forced and task_output == TASK_OUTPUT_SUBMIT_FAILED
+        ):
             if flag == self.FLAG_RECEIVED and itask.state.is_gt(
                 TASK_STATUS_SUBMIT_FAILED
             ):
                 # Already submit-failed
                 return True
+            if forced:
+                # manual completion: no job, no retries
+                if itask.state_reset(TASK_STATUS_SUBMIT_FAILED, forced=True):
+                    self.data_store_mgr.delta_task_state(itask)
+                if itask.state.outputs.set_message_complete(
+                    TASK_OUTPUT_SUBMIT_FAILED, forced
+                ):
+                    self.data_store_mgr.delta_task_output(
+                        itask, TASK_OUTPUT_SUBMIT_FAILED)
             if forced or self._process_message_submit_failed(
                 itask, event_time
             ):
